@@ -137,6 +137,7 @@ class Tracer(SymEval):
         self.assign_sites = []      # (local, value, loops, guards) of every assignment to a plain local
         self._after_stmt = []       # ((cond, polarity), guard depth) established by a `?` inside the statement being read
         # opt-in store tracking for fields of `self` (used by the transformer readings): a read after a store sees the stored value
+        self.track_reads = False    # opt-in: every indexing expression leaves a `<read>` event (value, position in program order)
         self.track_fields = False
         self.field_store = {}       # access path -> (value, guards at the store, loops at the store)
         self.loop_fields = {}       # loop id -> {access path: value on loop entry} for fields stored to inside that loop
@@ -812,6 +813,12 @@ class Tracer(SymEval):
     def e_continue(self, n, env):
         self.events.append(Event("<continue>", [], self.loops, self.guards, n.get("sp"), n))
         return ("never",)
+
+    def e_index(self, n, env):
+        v = super().e_index(n, env)
+        if self.track_reads and not self._lhs:
+            self.events.append(Event("<read>", [v], self.loops, self.guards, n.get("sp"), n))
+        return v
 
     def e_assign(self, n, env):
         r = self.eval(n["r"], env)
